@@ -27,6 +27,10 @@ def explicit(tier, seed):
                                          "cfg": {"preset": "all_completed"}}, {"k": "step", "val": "end"}]))
     shapes.append(("wfcb-and-map-summarised", [{"k": "map", "items": [0, 1], "body": [{"k": "step", "val": 1}], "result": {"big": L // 2 + 900}, "cfg": None},
                                                {"k": "try", "body": {"k": "wfcb"}, "catch": "*"}, {"k": "step", "val": "end"}]))
+    # the workflow guards its external calls with `except Exception`: a checkpoint failure must not be catchable that way
+    shapes.append(("guarded-calls", [{"k": "step", "val": 1}, {"k": "try", "body": {"k": "invoke", "fn": "f", "payload": 1, "cfg": {"timeout": 30}}, "catch": ["Exception"]},
+                                     {"k": "try", "body": {"k": "step", "val": 2}, "catch": ["Exception"]}, {"k": "try", "body": {"k": "wait", "s": 1}, "catch": ["Exception"]},
+                                     {"k": "try", "body": {"k": "cb"}, "catch": ["Exception"]}, {"k": "step", "val": "end"}]))
     reps = 2 if tier == "quick" else 12
     for name, body in shapes:
         for r in range(reps):
